@@ -9,5 +9,5 @@ CONSTANTS
     CleanupReservation = TRUE
     MayFault = TRUE
     FaultAfterCommit = FALSE
-INVARIANTS CrashAtomic NoVisibleBeforeDurable AckDurableS FailureChangesNothing TmpEmptyAfterOp OnlyOwnPaths
+INVARIANTS CrashAtomic NoVisibleBeforeDurable AckDurableS FailureChangesNothing TmpEmptyAfterOp OnlyOwnPaths ReaderSeesWhole
 CHECK_DEADLOCK FALSE
